@@ -1,6 +1,7 @@
 -- GENERATED: axiom audit of the property theorems of C42
 import SquidModel.Properties.C42
 #print axioms SquidModel.C42.match_iff_union_partial
+#print axioms SquidModel.C42.parse_invariant
 #print axioms SquidModel.C42.match_iff_union_plain
 #print axioms SquidModel.C42.match_iff_union_ipv4_lists
 #print axioms SquidModel.C42.match_order_irrelevant
@@ -8,8 +9,10 @@ import SquidModel.Properties.C42
 #print axioms SquidModel.C42.keyword_all
 #print axioms SquidModel.C42.keyword_ipv4
 #print axioms SquidModel.C42.keyword_ipv6
+#print axioms SquidModel.C42.parse_never_exhausts_budget
 #print axioms SquidModel.C42.lookups_keep_stored
 #print axioms SquidModel.C42.anyaddr_order_counterexample
+#print axioms SquidModel.C42.to_localhost_order_counterexample
 #print axioms SquidModel.C42.range_matches_anyaddr_counterexample
 #print axioms SquidModel.C42.range_matches_noaddr_counterexample
 #print axioms SquidModel.C42.masked_probe_counterexample
